@@ -9,12 +9,14 @@ import (
 	"context"
 	"crypto/ed25519"
 	"fmt"
+	"strings"
 	"sync"
 	"testing"
 	"time"
 
 	"github.com/gorilla/websocket"
 	"github.com/smartcontractkit/wsrpc/internal/message"
+	"github.com/smartcontractkit/wsrpc/peer"
 	"google.golang.org/protobuf/proto"
 )
 
@@ -26,6 +28,7 @@ func TestVerifC05(t *testing.T) {
 	}
 	vRunSessionBatches(t, r, batches, n, steps, 1, "honest")
 	vRunSessionBatches(t, r, batches/2, n, steps, 0, "dishonest")
+	vC05TimeoutRace(r)
 	vC05CrashPoints(r)
 }
 
@@ -170,4 +173,207 @@ func vC05CrashPoints(r *vRand) {
 	vClose(cc2, 5*time.Second)
 	px2.Close()
 	rs.Close()
+}
+
+// ---- a call whose context ends just as its response arrives, then a request on the same endpoint:
+// the request must still be answered with exactly one response frame.
+
+// a goroutine which is inside fn and blocked acquiring a lock
+func vC05InLock(fn string) bool {
+	for _, g := range strings.Split(vGoroutineDump(), "\n\n") {
+		if strings.Contains(g, fn) && (strings.Contains(g, "sync.(*RWMutex).Lock") || strings.Contains(g, "sync.(*Mutex).Lock")) {
+			return true
+		}
+	}
+	return false
+}
+
+func vC05RequestID(tr *vFakeTr, skip map[string]bool) string {
+	id := ""
+	vWaitUntil(2*time.Second, func() bool {
+		tr.mu.Lock()
+		defer tr.mu.Unlock()
+		for _, w := range tr.writes {
+			m := &message.Message{}
+			if proto.Unmarshal(w, m) == nil && m.GetRequest() != nil && !skip[m.GetRequest().GetCallId()] {
+				id = m.GetRequest().GetCallId()
+				return true
+			}
+		}
+		return false
+	})
+	return id
+}
+
+// vC05AnswersOnce feeds one request to the endpoint behind tr and counts the response frames it writes
+func vC05AnswersOnce(tr *vFakeTr, n int) (frames int, fed bool) {
+	id := fmt.Sprintf("00000000-0000-4000-8000-%012d", 500+n)
+	app, _ := proto.Marshal(vAppMsg("after-race", []byte("z"), ""))
+	if vFeed(tr, vFrame(&message.Message{Exchange: &message.Message_Request{Request: &message.Request{Method: "Echo", CallId: id, Payload: app}}})) != nil {
+		return 0, false
+	}
+	count := func() int {
+		tr.mu.Lock()
+		defer tr.mu.Unlock()
+		k := 0
+		for _, w := range tr.writes {
+			m := &message.Message{}
+			if proto.Unmarshal(w, m) == nil && m.GetResponse() != nil && m.GetResponse().GetCallId() == id {
+				k++
+			}
+		}
+		return k
+	}
+	if vWaitUntil(2*time.Second, func() bool { return count() > 0 }) {
+		time.Sleep(20 * time.Millisecond) // a second frame would follow at once
+	}
+	return count(), true
+}
+
+func vC05TimeoutRace(r *vRand) {
+	respFrame := func(id string) []byte {
+		app, _ := proto.Marshal(vAppMsg("tok", nil, ""))
+		return vFrame(&message.Message{Exchange: &message.Message_Response{Response: &message.Response{CallId: id, Payload: app}}})
+	}
+	verdict := func(class, sig string, info map[string]interface{}, tr *vFakeTr, n int) {
+		frames, fed := vC05AnswersOnce(tr, n)
+		info["response_frames_for_the_later_request"] = frames
+		info["later_request_taken"] = fed
+		info["outcome"] = fmt.Sprintf("frames=%d", frames)
+		c := vCase{Class: class, Sig: sig, Info: info}
+		if !fed || frames == 0 {
+			c.Fail = "no-response-after-timeout-race/" + sig
+		} else if frames > 1 {
+			c.Fail = "request-answered-twice/" + sig
+		}
+		vEmit(c)
+	}
+	// (a) server -> client calls; forced schedule: the endpoint's lock is busy (as during any administrative
+	// operation) when the response arrives and the context ends, the responder is first in the queue
+	{
+		e := vNewSrvEnd(true)
+		info := map[string]interface{}{"schedule": "lock busy; response fed (responder queues); context cancelled (caller leaves its select); lock released"}
+		seen := map[string]bool{}
+		for k := 0; k < 2; k++ {
+			ctx, cancel := context.WithCancel(context.Background())
+			done := make(chan error, 1)
+			go func() {
+				done <- e.s.Invoke(peer.NewCallContext(ctx, e.key), "Echo", vAppMsg("tok", nil, ""), &message.Response{})
+			}()
+			id := vC05RequestID(e.tr, seen)
+			seen[id] = true
+			e.s.mu.Lock()
+			go vFeed(e.tr, respFrame(id))
+			q1 := vWaitUntil(time.Second, func() bool { return vC05InLock("wsrpc.(*Server).handleMessageResponse") })
+			cancel()
+			q2 := vWaitUntil(time.Second, func() bool { return vC05InLock("wsrpc.(*Server).Invoke") })
+			e.s.mu.Unlock()
+			ret := "no"
+			select {
+			case err := <-done:
+				ret = fmt.Sprint(err)
+			case <-time.After(2 * time.Second):
+			}
+			info[fmt.Sprintf("call%d", k)] = fmt.Sprintf("responder_queued=%v caller_queued=%v returned=%s", q1, q2, ret)
+			if ret == "no" {
+				break
+			}
+		}
+		verdict("timeout-race/server-forced", "server-forced", info, e.tr, 1)
+		close(e.done)
+	}
+	// (b) the same on the client endpoint
+	{
+		e := vNewCliEnd(true)
+		info := map[string]interface{}{"schedule": "lock busy; response fed; context cancelled; lock released"}
+		seen := map[string]bool{}
+		for k := 0; k < 2; k++ {
+			ctx, cancel := context.WithCancel(context.Background())
+			done := make(chan error, 1)
+			go func() { done <- e.cc.Invoke(ctx, "Echo", vAppMsg("tok", nil, ""), &message.Response{}) }()
+			id := vC05RequestID(e.tr, seen)
+			seen[id] = true
+			e.cc.mu.Lock()
+			go vFeed(e.tr, respFrame(id))
+			q1 := vWaitUntil(time.Second, func() bool { return vC05InLock("wsrpc.(*ClientConn).handleMessageResponse") })
+			cancel()
+			q2 := vWaitUntil(time.Second, func() bool { return vC05InLock("wsrpc.(*ClientConn).Invoke") })
+			e.cc.mu.Unlock()
+			ret := "no"
+			select {
+			case err := <-done:
+				ret = fmt.Sprint(err)
+			case <-time.After(2 * time.Second):
+			}
+			info[fmt.Sprintf("call%d", k)] = fmt.Sprintf("responder_queued=%v caller_queued=%v returned=%s", q1, q2, ret)
+			if ret == "no" {
+				break
+			}
+		}
+		verdict("timeout-race/client-forced", "client-forced", info, e.tr, 2)
+		e.cc.cancel()
+	}
+	// (c) unforced: many server -> client calls whose deadline falls around the arrival of the response
+	{
+		e := vNewSrvEnd(true)
+		n := 200
+		if vThorough() {
+			n = 3000
+		}
+		var mu sync.Mutex
+		delay := time.Millisecond
+		e.tr.mu.Lock()
+		e.tr.onWrite = func(b []byte) {
+			m := &message.Message{}
+			if proto.Unmarshal(b, m) != nil || m.GetRequest() == nil {
+				return
+			}
+			mu.Lock()
+			d := delay
+			mu.Unlock()
+			f := respFrame(m.GetRequest().GetCallId())
+			time.AfterFunc(d, func() {
+				select {
+				case e.tr.read <- f:
+				case <-e.done:
+				case <-time.After(3 * time.Second):
+				}
+			})
+		}
+		e.tr.mu.Unlock()
+		outcomes := map[string]int{}
+		for i := 0; i < n; i++ {
+			d := time.Duration(300+r.Intn(1500)) * time.Microsecond
+			jitter := time.Duration(r.Intn(500)-250) * time.Microsecond
+			mu.Lock()
+			delay = d + jitter
+			mu.Unlock()
+			ctx, cancel := context.WithTimeout(context.Background(), d)
+			done := make(chan error, 1)
+			go func() {
+				done <- e.s.Invoke(peer.NewCallContext(ctx, e.key), "Echo", vAppMsg("tok", nil, ""), &message.Response{})
+			}()
+			stuck := false
+			select {
+			case err := <-done:
+				if err == nil {
+					outcomes["reply"]++
+				} else {
+					outcomes["timeout"]++
+				}
+			case <-time.After(2 * time.Second):
+				outcomes["not-returned"]++
+				stuck = true
+			}
+			cancel()
+			if stuck {
+				break
+			}
+			e.tr.takeWrites()
+		}
+		time.Sleep(5 * time.Millisecond)
+		info := map[string]interface{}{"calls": n, "results": fmt.Sprint(outcomes)}
+		verdict("timeout-race/server-sweep", "server-sweep", info, e.tr, 3)
+		close(e.done)
+	}
 }
